@@ -59,6 +59,9 @@ func (ts *Terms) intern(t *T) *T {
 	if t.Fn != nil {
 		fmt.Fprintf(&sb, "|fn:%p", t.Fn)
 	}
+	if t.Site != nil {
+		fmt.Fprintf(&sb, "|site:%p", t.Site)
+	}
 	if t.Lin != nil {
 		fmt.Fprintf(&sb, "|c:%d", t.Lin.C)
 		for i, s := range t.Lin.Syms {
@@ -163,10 +166,14 @@ func (ts *Terms) Const(k constant.Value, typ types.Type) *T {
 	}
 	return ts.intern(&T{Op: "const", K: k, Typ: typ})
 }
-func (ts *Terms) Nil(typ types.Type) *T      { return ts.intern(&T{Op: "nil", Typ: nil}) }
-func (ts *Terms) Bool(b bool) *T             { return ts.intern(&T{Op: "const", K: constant.MakeBool(b), Typ: types.Typ[types.Bool]}) }
-func (ts *Terms) Str(s string) *T            { return ts.intern(&T{Op: "const", K: constant.MakeString(s), Typ: types.Typ[types.String]}) }
-func (ts *Terms) Zero(typ types.Type) *T     { return ts.zeroOf(typ) }
+func (ts *Terms) Nil(typ types.Type) *T { return ts.intern(&T{Op: "nil", Typ: nil}) }
+func (ts *Terms) Bool(b bool) *T {
+	return ts.intern(&T{Op: "const", K: constant.MakeBool(b), Typ: types.Typ[types.Bool]})
+}
+func (ts *Terms) Str(s string) *T {
+	return ts.intern(&T{Op: "const", K: constant.MakeString(s), Typ: types.Typ[types.String]})
+}
+func (ts *Terms) Zero(typ types.Type) *T { return ts.zeroOf(typ) }
 func (ts *Terms) Sym(op, aux string, typ types.Type, args ...*T) *T {
 	return ts.intern(&T{Op: op, Aux: aux, Typ: typ, Args: args})
 }
